@@ -47,6 +47,10 @@ T = {
          'Generated right graphs = tree + unreachable extras (isolated, detached sub-trees, ancestors of `right`); Ok iff no extras, otherwise Err naming every unreachable present vertex.',
          'trusted: the generator knows which right vertices are unreachable by construction',
          'property-based testing over generated graph pairs; oracle = reachability by construction'),
+ 'C13': ('digraph', 'exploration',
+         'Generated digraphs (cycles, shared targets, parallel labels) and post-collection history graphs; every present start vertex; slice and slice_some under generated predicates compared with an independent BFS on the reference model; source unchanged; non-termination detected by stack overflow / per-case watchdog.',
+         'trusted: reference model edges, BFS in harness/src/props/digraph.rs; <=14 reachable vertices as the property requires',
+         'property-based testing over generated digraphs; oracle = independent reachability computation'),
  'C14': ('scriptgen', 'exploration',
          'Differential twin: deploy_to(text) vs the direct API calls for generated programs under generated legal formatting; single-fault corruptions are classified by an independent strict parser (well-formed / malformed at command k / unspecified) and judged accordingly (Err without panic, prefix applied).',
          'trusted: the strict parser of the documented grammar (harness/src/props/script.rs); unspecified syntax is skipped and counted',
@@ -59,6 +63,14 @@ T = {
          'For generated contents every pair of lengths 0..=12 x 0..=12 in 3x3 representations is concatenated and compared with Vec concatenation; operands must stay unchanged. One open known finding (exact signature) is reported as KNOWN-FINDING and excluded so that the search continues.',
          'trusted: Vec concatenation as the oracle; known_findings.json signature concat.inline_spill_padding',
          'bounded-exhaustive enumeration of the length space over proptest-generated contents; oracle = byte concatenation'),
+ 'C18': ('digraph', 'exploration',
+         'Generated graphs (digraph builder and histories with collections); XML parsed with sxd-document and DOT with a line grammar, compared with the reference model (node set in ascending order, edges, data); metamorphic rebuild of the same present graph in another way must give byte-identical text.',
+         'trusted: reference model; sxd-document parser; the DOT line grammar of src/dot.rs',
+         'property-based testing; parse-back oracle against the reference model + metamorphic rebuild'),
+ 'C20': ('digraph', 'exploration',
+         'Generated graphs as C13; inspect() parsed by indentation and compared with the reachable edge multiset (exactly once each), v_print and Debug/Display parsed and compared with the reference model; termination by stack overflow detection / per-case watchdog.',
+         'trusted: reference model; the text parsers in harness/src/props/digraph.rs; what is printed beneath an edge to a collected vertex is not judged',
+         'property-based testing over generated digraphs; parse-back oracle against the reference model'),
  'C19': ('multi-config', 'exploration',
          'The same generated history is replayed twice in one process, in another process (sampled) and under a second (N, capacity) configuration; complete observation traces incl. kids() order, next_id results and merge-created ids must be identical.',
          'differential: implementation vs itself; histories generated inside the limits of the smaller configuration',
@@ -92,7 +104,7 @@ na = [{'property_id': p['id'], 'reason': 'check under construction in this sessi
 engines = {}
 for i in claimed:
     engines.setdefault(T[i][0], []).append(i)
-paths = {'treegen': 'harness/src/props/trees.rs', 'scriptgen': 'harness/src/props/script.rs', 'twin': 'harness/src/props/twin.rs', 'prefixes': 'harness/src/props/prefixes.rs', 'multi-config': 'harness/src/props/multi.rs', 'gcmodel': 'harness/src/engine.rs', 'hexenum': 'harness/src/props/hexlab.rs', 'concatenum': 'harness/src/props/hexlab.rs', 'labels': 'harness/src/props/hexlab.rs'}
+paths = {'digraph': 'harness/src/props/digraph.rs', 'treegen': 'harness/src/props/trees.rs', 'scriptgen': 'harness/src/props/script.rs', 'twin': 'harness/src/props/twin.rs', 'prefixes': 'harness/src/props/prefixes.rs', 'multi-config': 'harness/src/props/multi.rs', 'gcmodel': 'harness/src/engine.rs', 'hexenum': 'harness/src/props/hexlab.rs', 'concatenum': 'harness/src/props/hexlab.rs', 'labels': 'harness/src/props/hexlab.rs'}
 m = {
     'version': 1,
     'setup_cmd': './setup.sh',
